@@ -43,7 +43,7 @@ ASSUMPTIONS = [
     "leaves return python int (or 0-d long tensor) labels and a fresh float32 tensor per load (the wrapper mixes in place), as the repository's datasets do",
     "datasets have >= 2 samples ('one other sample' is undefined for a single sample); samples of one dataset have equal ndim; "
     "differing shapes are only driven together with mixup_unify_shapes_mode='pad_or_cut_end'",
-    "float tolerances: data residual <= 4e-6*(|x_i|+|U(x_p)|)+1e-6 per element, label vs data-decoded weight <= 1e-3, label sum <= 1e-5",
+    "float tolerances: data residual <= 4e-6*(|x_i|+|U(x_p)|)+1e-6 per element, label vs data-decoded weight <= 3e-4, label sum <= 1e-5",
     "p=1 clause: lambda ~ Beta(alpha, alpha) with alpha >= 1 and P(partner = self) <= 1/n (uniform over the dataset or over the "
     "others); draws of distinct (seed, index) pairs are independent; 'looks un-mixed' = label mass on the own class >= 1-1e-3 "
     "(x-only form: decoded partner weight < 1e-3); null probability bounded by 1/64 + 2e-3; false-alarm bound 1e-12 per run",
@@ -59,7 +59,7 @@ MONITORS = ["joint_results_checked", "x_only_results_checked", "label_only_resul
 # tolerances (see ASSUMPTIONS)
 RT = 4e-6     # relative, per element, on |x_i| + |U(x_p)|
 TT = 1e-4     # slack of the decoded partner weight around [0, 1]
-TY = 1e-3     # label vs expected label built from the data-decoded weight
+TY = 3e-4     # label vs expected label built from the data-decoded weight (observed on the real code: < 1e-5)
 TSUM = 1e-5
 P1_EPS = 1e-3
 P1_Q0 = 1.0 / 64 + 2e-3
@@ -493,10 +493,11 @@ def judge(run, spec, M, i, x, y, form, allow_paste):
         return info
     run.count("joint_results_checked")
     e_i = M.onehot(ci)
-    for p, w, _ in cands:
-        if np.abs(yv - (w * e_i + (1 - w) * M.onehot(M.classes[p]))).max() <= TY:
-            info.update(p=p, w=w)
-            return info
+    diffs = [float(np.abs(yv - (w * e_i + (1 - w) * M.onehot(M.classes[p]))).max()) for p, w, _ in cands]
+    k = int(np.argmin(diffs))
+    if diffs[k] <= TY:
+        info.update(p=cands[k][0], w=cands[k][1])
+        return info
     # classify the disagreement (mechanism keys)
     label_onehot_own = np.abs(yv - e_i).max() <= TY
     cand_classes = {M.classes[p] for p, _, _ in cands}
